@@ -344,7 +344,58 @@ func (v *vf) pairKeyPos(fn *ssa.Function, key, pos ssa.Value, depth int) string 
 		}
 		return ""
 	}
+	// P6: the helper is handed the record and its position (`applyFlushed(record, pos)`) and indexes record.Key: the
+	// pairing of record and position is established at every call site (same staged index / same appending call)
+	if f, base := core.LoadedField(key); f == R.LRKey {
+		if ri, pi := paramIndex(fn, base), paramIndex(fn, pos); ri >= 0 && pi >= 0 {
+			sites := libCallSites(v.p, fn)
+			if len(sites) == 0 {
+				return "no call site found for " + core.FuncKey(fn)
+			}
+			for _, s := range sites {
+				args := s.Common().Args
+				if ri >= len(args) || pi >= len(args) {
+					return "argument binding failed"
+				}
+				if why := v.recPosPaired(s.Parent(), args[ri], args[pi]); why != "" {
+					return fmt.Sprintf("at call site %s: %s", v.p.InstrPos(s), why)
+				}
+			}
+			return ""
+		}
+	}
 	return "unrecognised provenance of the position"
+}
+
+// recPosPaired: rec (a *LogRecord in fn) and pos belong together: element i of the staged slice with element i of the
+// flushing call's result, or the record handed to the appending call whose result #0 pos is.
+func (v *vf) recPosPaired(fn *ssa.Function, rec, pos ssa.Value) string {
+	R := v.p.R
+	if xp, ip := elemLoad(pos); xp != nil {
+		xs, is := elemLoad(rec)
+		if xs == nil {
+			return "position taken from a slice but the record is not an element of the staged slice"
+		}
+		if ip != is {
+			return "position and record are taken at different indexes"
+		}
+		if core.LastField(xs) != R.BatchStaged {
+			return "record is not an element of the staged slice"
+		}
+		if c, pi := extractOf(xp); c != nil && pi == 0 && c.Common().StaticCallee() != nil && v.writeReach[c.Common().StaticCallee()] {
+			return ""
+		}
+		return "positions are not the result of the flushing call"
+	}
+	if c, pi := extractOf(pos); c != nil && pi == 0 {
+		if callee := c.Common().StaticCallee(); callee != nil && v.writeReach[callee] {
+			if a := v.recordArg(c.Common()); a != nil && sameOrigin(a, rec) {
+				return ""
+			}
+			return "the record is not the one passed to the appending call"
+		}
+	}
+	return "unrecognised pairing of record and position"
 }
 
 // VF1: append -> index pairing at every INDEX-UPDATE(Put).
